@@ -152,6 +152,10 @@ class Env:
         info = self.cls(clsqual)
         self.ip.state.class_over[(info.qualname, attr)] = value
 
+    def instance(self, name, value):
+        """callee postconditions quantified over the Skolem `name` are also instantiated at `value`"""
+        self.ctx.instances.setdefault(name, []).append(value)
+
     def assume(self, c):
         if isinstance(c, Sym):
             self.ctx.assume(c.t)
